@@ -23,6 +23,8 @@ def cases(tier, seed):
         out.append(dict(src=s, family="expressions-as-parameters"))
     for s in gen.cast_use_cases():
         out.append(dict(src=s, family="converted-values-as-indices-and-parameters"))
+    for s in gen.folded_value_cases():
+        out.append(dict(src=s, family="values-through-initialisers-booleans-and-array-elements"))
     # programs with a checked error: they are rejected; whatever unroll() accepts nevertheless must still be flat,
     # re-loadable and a fixpoint (the clauses hold of every output, not only of the outputs of valid programs)
     for cls, ctx, src in gen.error_cases():
@@ -52,6 +54,9 @@ def _reload_worker(src):
     stmts = m.unrolled_ast.statements
 
     def known_shape(ss):
+        names = [x.identifier.name for x in ss if isinstance(x, qa.ClassicalDeclaration)]
+        if len(names) != len(set(names)):
+            return "C03-register-declared-in-a-loop-body-is-emitted-once-per-iteration"
         for x in ss:
             if isinstance(x, qa.QuantumPhase) and x.qubits:
                 return "C03-gphase-with-qubit-operands"
